@@ -89,3 +89,374 @@ Theorem index_token_limit ty size : opener_check ty size = CkOk -> ty = tok_STRI
 Proof.
   unfold opener_check. intros H ->. rewrite Z.eqb_refl in H. destruct (Z.ltb_spec INDEX_MAX size); [discriminate|lia].
 Qed.
+
+(* ================================================================== *)
+(* Depth bookkeeping: discardCount + live unslicers + pending OPEN tracks the nesting depth of
+   the token stream exactly, whatever violations occur.  Consequence: at the end of every
+   balanced top-level object the receiver is back at top level (resynchronised). *)
+
+Definition wfc (c : bctx) : Prop := 0 <= discard c /\ root_at_bottom (stack c).
+
+Lemma root_nonempty st : root_at_bottom st -> (1 <= List.length st)%nat.
+Proof. intros (pre & -> & _). rewrite app_length. cbn. lia. Qed.
+
+Lemma hv_loop_pops top rest d ic st' d' es :
+  f_kind top <> kR -> f_kind top <> kP -> hv_loop (top :: rest) d ic = Some (st', d', es) ->
+  (List.length st' <= List.length rest)%nat.
+Proof.
+  intros HR HP E. cbn [hv_loop] in E.
+  destruct (Z.eqb_spec (f_kind top) kR); [contradiction|]. destruct (Z.eqb_spec (f_kind top) kP); [contradiction|].
+  destruct rest as [|g rest']; [discriminate|].
+  destruct (hv_loop (g :: rest') (if ic then d else d + 1) false) as [[[s1 d1] e1]|] eqn:E1; [|discriminate].
+  inversion E; subst. apply hv_loop_length in E1. exact E1.
+Qed.
+
+Lemma handle_violation_depth c io ic c' es : wfc c -> handle_violation c io ic = Ok' c' es ->
+  wfc c' /\ inOpen c' = inOpen c /\ rootmode c' = rootmode c /\ vocab c' = vocab c /\
+  open_depth c' = open_depth c + (if io then 1 else 0)
+                  - (if ic then (if (List.length (stack c') <? List.length (stack c))%nat then 1 else 0) else 0).
+Proof.
+  intros (Hd & Hr) E. unfold handle_violation in E.
+  destruct (hv_loop_root (stack c) Hr (if io then discard c + 1 else discard c) ic) as (st' & d' & es' & EL & R & Hle & Hc).
+  rewrite EL in E. inversion E; subst. unfold wfc, open_depth, with_stack. cbn [discard stack inOpen rootmode vocab].
+  split; [split; [destruct io; lia|exact R]|]. split; [reflexivity|]. split; [reflexivity|]. split; [reflexivity|].
+  pose proof (root_nonempty _ Hr). pose proof (root_nonempty _ R). pose proof (hv_loop_length _ _ _ _ _ _ EL).
+  destruct io, ic; destruct (Nat.ltb_spec (List.length st') (List.length (stack c))); lia.
+Qed.
+
+Lemma od_push c d f : open_depth (with_stack c d (f :: stack c)) = d + Z.of_nat (List.length (stack c)) + (if inOpen c then 1 else 0).
+Proof. unfold open_depth, with_stack. cbn [discard stack inOpen List.length]. lia. Qed.
+
+Lemma root_push st f : root_at_bottom st -> f_kind f <> kR -> root_at_bottom (f :: st).
+Proof. intros (pre & -> & F) H. exists (f :: pre). split; [reflexivity|constructor; assumption]. Qed.
+
+Lemma root_replace_top top rest f : root_at_bottom (top :: rest) -> f_kind top <> kR -> f_kind f <> kR -> root_at_bottom (f :: rest).
+Proof.
+  intros (pre & E & F) Ht Hf. destruct pre as [|p pre].
+  - cbn in E. inversion E; subst. exfalso. apply Ht. reflexivity.
+  - cbn in E. inversion E; subst. inversion F; subst. exists (f :: pre). split; [reflexivity|constructor; assumption].
+Qed.
+
+Lemma root_pop top rest : root_at_bottom (top :: rest) -> f_kind top <> kR -> root_at_bottom rest.
+Proof.
+  intros (pre & E & F) Ht. destruct pre as [|p pre].
+  - cbn in E. inversion E; subst. exfalso. apply Ht. reflexivity.
+  - cbn in E. inversion E; subst. inversion F; subst. exists pre. auto.
+Qed.
+
+Lemma root_top_open top rest : root_at_bottom (top :: rest) -> f_open top <> None -> f_kind top <> kR.
+Proof.
+  intros (pre & E & F) Ho. destruct pre as [|p pre].
+  - cbn in E. inversion E; subst. cbn in Ho. congruence.
+  - cbn in E. inversion E; subst. inversion F; subst. assumption.
+Qed.
+
+Lemma handle_token_depth c v c' es : wfc c -> handle_token c v = Ok' c' es ->
+  wfc c' /\ inOpen c' = inOpen c /\ rootmode c' = rootmode c /\ vocab c' = vocab c /\ open_depth c' = open_depth c.
+Proof.
+  intros W E. unfold handle_token in E. destruct (stack c) as [|top rest] eqn:Es; [discriminate|].
+  destruct (f_kind top =? kR) eqn:ER; [inversion E; subst; auto 6|].
+  destruct ((f_kind top =? kC) && (Z.of_nat (List.length (f_items top)) =? f_param top)) eqn:EC.
+  - destruct (handle_violation c false false) as [c1 es1|] eqn:EV; [|discriminate]. inversion E; subst.
+    destruct (handle_violation_depth _ _ _ _ _ W EV) as (W1 & I1 & M1 & V1 & D1). repeat split; try assumption; try apply W1. lia.
+  - inversion E; subst. destruct W as (Hd & Hr). rewrite Es in Hr.
+    unfold wfc, open_depth, with_stack. cbn [discard stack inOpen rootmode vocab List.length]. rewrite Es. cbn [List.length].
+    split; [split; [exact Hd|]|auto].
+    apply Z.eqb_neq in ER. apply (root_replace_top top rest); [exact Hr|exact ER|exact ER].
+Qed.
+
+Lemma handle_close_depth c n c' es : wfc c -> handle_close c n = Ok' c' es ->
+  wfc c' /\ inOpen c' = inOpen c /\ rootmode c' = rootmode c /\ vocab c' = vocab c /\ open_depth c' = open_depth c - 1.
+Proof.
+  intros W E. unfold handle_close in E. destruct (stack c) as [|top rest] eqn:Es; [discriminate|].
+  destruct (f_open top) as [oc|] eqn:Eo; [|discriminate].
+  destruct (negb (oc =? n)); [discriminate|].
+  assert (HnR : f_kind top <> kR).
+  { destruct W as (_ & Hr). rewrite Es in Hr. apply (root_top_open top rest Hr). congruence. }
+  assert (Wd := W). destruct Wd as (Hd & Hr). rewrite Es in Hr.
+  destruct (Z.eqb_spec (f_kind top) kX) as [EX|NX].
+  - destruct (handle_violation c false true) as [c1 es1|] eqn:EV; [|discriminate]. inversion E; subst.
+    destruct (handle_violation_depth _ _ _ _ _ W EV) as (W1 & I1 & M1 & V1 & D1).
+    unfold handle_violation in EV. rewrite Es in EV.
+    destruct (hv_loop (top :: rest) (discard c) true) as [[[s1 d1] e1]|] eqn:EL; [|discriminate]. inversion EV; subst.
+    assert (HP : f_kind top <> kP) by (rewrite EX; unfold kX, kP; lia).
+    pose proof (hv_loop_pops _ _ _ _ _ _ _ HnR HP EL) as Hp.
+    cbn [with_stack stack] in D1. rewrite Es in D1. cbn [List.length] in D1.
+    destruct (Nat.ltb_spec (List.length s1) (S (List.length rest))); [|lia].
+    repeat split; try assumption; try apply W1. lia.
+  - destruct (Z.eqb_spec (f_kind top) kF) as [EF|NF].
+    + destruct (handle_violation c false true) as [c1 es1|] eqn:EV; [|discriminate]. inversion E; subst.
+      destruct (handle_violation_depth _ _ _ _ _ W EV) as (W1 & I1 & M1 & V1 & D1).
+      unfold handle_violation in EV. rewrite Es in EV.
+      destruct (hv_loop (top :: rest) (discard c) true) as [[[s1 d1] e1]|] eqn:EL; [|discriminate]. inversion EV; subst.
+      assert (HP : f_kind top <> kP) by (rewrite EF; unfold kF, kP; lia).
+      pose proof (hv_loop_pops _ _ _ _ _ _ _ HnR HP EL) as Hp.
+      cbn [with_stack stack] in D1. rewrite Es in D1. cbn [List.length] in D1.
+      destruct (Nat.ltb_spec (List.length s1) (S (List.length rest))); [|lia].
+      repeat split; try assumption; try apply W1. lia.
+    + destruct (handle_token (with_stack c (discard c) rest) (VList (f_kind top) (rev (f_items top)))) as [c1 es1|] eqn:ET; [|discriminate].
+      inversion E; subst.
+      assert (W0 : wfc (with_stack c (discard c) rest)).
+      { split; [exact Hd|]. cbn [with_stack stack]. apply (root_pop top rest Hr HnR). }
+      destruct (handle_token_depth _ _ _ _ W0 ET) as (W1 & I1 & M1 & V1 & D1).
+      repeat split; try assumption; try apply W1.
+      rewrite D1. unfold open_depth, with_stack. cbn [discard stack inOpen]. rewrite Es. cbn [List.length]. lia.
+Qed.
+
+Lemma known_kind_not_root k : known_kind k = true -> k <> kR.
+Proof. unfold known_kind, kR, kL, kI, kS, kN, kC, kX, kT, kF, kP, kB, kQ. intros H ->. cbn in H. discriminate. Qed.
+
+Lemma do_open_child_kind top ot k p : do_open top ot = OChild k p -> k <> kR.
+Proof.
+  unfold do_open. destruct ot as [|head more]; [discriminate|]. destruct head as [|k0 digits]; [discriminate|].
+  destruct (k0 =? k2).
+  - destruct more; [discriminate|]. destruct (f_kind top =? kI); [discriminate|]. intros E; inversion E; subst. unfold kL, kR; lia.
+  - destruct (negb (known_kind k0) || negb (forallb is_digit digits)) eqn:EK; [discriminate|].
+    destruct (f_kind top =? kI); [discriminate|]. intros E; inversion E; subst.
+    apply orb_false_iff in EK as [EK _]. apply negb_false_iff in EK. apply known_kind_not_root; exact EK.
+Qed.
+
+Lemma handle_open_depth c v c' es : wfc c -> inOpen c = true -> handle_open c v = Ok' c' es ->
+  wfc c' /\ rootmode c' = rootmode c /\ vocab c' = vocab c /\ open_depth c' = open_depth c.
+Proof.
+  intros W IO E. unfold handle_open in E. cbv zeta in E. destruct v as [z|b|b|k items]; try discriminate.
+  destruct (negb (ascii_only b)); [discriminate|].
+  destruct (stack c) as [|top rest] eqn:Es; [discriminate|].
+  destruct (do_open top (opentype c ++ [b])) as [| |k p] eqn:ED.
+  - inversion E; subst. unfold wfc, open_depth, with_opentype in *. cbn [discard stack inOpen rootmode vocab]. auto.
+  - remember (with_inOpen (with_opentype c (opentype c ++ [b])) false) as c1 eqn:Ec1.
+    destruct (handle_violation c1 true false) as [c2 es2|] eqn:EV; [|discriminate]. inversion E; subst c' es.
+    assert (W1 : wfc c1) by (subst c1; exact W).
+    destruct (handle_violation_depth _ _ _ _ _ W1 EV) as (W2 & I2 & M2 & V2 & D2).
+    split; [exact W2|]. split; [rewrite M2; subst c1; reflexivity|]. split; [rewrite V2; subst c1; reflexivity|]. rewrite D2.
+    subst c1. unfold open_depth, with_inOpen, with_opentype. cbn [discard stack inOpen]. rewrite IO. lia.
+  - pose proof (do_open_child_kind _ _ _ _ ED) as HK.
+    remember {| f_kind := k; f_param := p; f_open := Some (inbOpen c); f_items := [] |} as child eqn:Ech.
+    remember (with_stack (with_inOpen (with_opentype c (opentype c ++ [b])) false) (discard c) (child :: top :: rest)) as c2 eqn:Ec2.
+    assert (HKc : f_kind child <> kR) by (subst child; exact HK).
+    assert (W2 : wfc c2).
+    { destruct W as (Hd & Hr). subst c2. split; [exact Hd|]. unfold with_stack. cbn [stack]. rewrite Es in Hr.
+      apply root_push; [exact Hr|exact HKc]. }
+    assert (D2 : open_depth c2 = open_depth c /\ rootmode c2 = rootmode c /\ vocab c2 = vocab c).
+    { subst c2. unfold open_depth, with_stack, with_inOpen, with_opentype. cbn [discard stack inOpen rootmode vocab List.length].
+      rewrite Es, IO. cbn [List.length]. repeat split. lia. }
+    destruct D2 as (D2 & M2 & V2).
+    destruct (k =? kT).
+    + destruct (handle_violation c2 false false) as [c3 es3|] eqn:EV; [|discriminate]. inversion E; subst c' es.
+      destruct (handle_violation_depth _ _ _ _ _ W2 EV) as (W3 & I3 & M3 & V3 & D3).
+      split; [exact W3|]. split; [congruence|]. split; [congruence|]. rewrite D3, D2. lia.
+    + inversion E; subst c' es. split; [exact W2|]. split; [exact M2|]. split; [exact V2|exact D2].
+Qed.
+
+Lemma deliver_depth c v c' es : wfc c -> deliver c v = Ok' c' es ->
+  wfc c' /\ rootmode c' = rootmode c /\ vocab c' = vocab c /\ open_depth c' = open_depth c.
+Proof.
+  intros W E. unfold deliver in E. destruct (inOpen c) eqn:IO.
+  - apply (handle_open_depth c v c' es W IO E).
+  - destruct (handle_token_depth _ _ _ _ W E) as (W1 & _ & M1 & V1 & D1). auto.
+Qed.
+
+Lemma begin_body_reject_depth c ty hdr c' es : wfc c -> begin_body c ty hdr = BReject c' es ->
+  wfc c' /\ rootmode c' = rootmode c /\ vocab c' = vocab c /\ open_depth c' = open_depth c.
+Proof.
+  intros W E. unfold begin_body in E. destruct (0 <? discard c); [inversion E; subst; auto|].
+  destruct (taste c ty hdr); try discriminate.
+  destruct (handle_violation c (inOpen c) false) as [c1 es1|] eqn:EV; [|discriminate]. inversion E; subst.
+  destruct (handle_violation_depth _ _ _ _ _ W EV) as (W1 & I1 & M1 & V1 & D1).
+  split; [exact W1|]. split; [exact M1|]. split; [exact V1|].
+  unfold open_depth, with_inOpen in *. cbn [discard stack inOpen]. rewrite I1 in D1. destruct (inOpen c); lia.
+Qed.
+
+Ltac tyc := unfold tok_OPEN, tok_CLOSE, tok_ABORT, tok_INT, tok_NEG, tok_VOCAB, tok_PING, tok_PONG, tok_STRING,
+                   tok_LONGINT, tok_LONGNEG, tok_FLOAT, tok_ERROR in *.
+
+Lemma step_nobody_depth c ty hdr c' es : wfc c -> step_nobody_hr c ty hdr = Ok' c' es ->
+  wfc c' /\ rootmode c' = rootmode c /\ vocab c' = vocab c /\ open_depth c' = open_depth c + tok_delta ty.
+Proof.
+  intros W E. unfold step_nobody_hr in E.
+  destruct ((ty =? tok_OPEN) && inOpen c) eqn:EOF_; [discriminate|].
+  set (c1 := if ty =? tok_OPEN then _ else c) in E.
+  assert (W1 : wfc c1) by (unfold c1; destruct (ty =? tok_OPEN); exact W).
+  assert (M1 : rootmode c1 = rootmode c /\ vocab c1 = vocab c) by (unfold c1; destruct (ty =? tok_OPEN); auto).
+  assert (D1 : open_depth c1 = open_depth c + (if ty =? tok_OPEN then 1 else 0) /\ (ty =? tok_OPEN = true -> inOpen c1 = true)
+               /\ (ty =? tok_OPEN = false -> inOpen c1 = inOpen c)).
+  { unfold c1. destruct (ty =? tok_OPEN) eqn:EO.
+    - cbn [andb] in EOF_. unfold open_depth. cbn [discard stack inOpen]. rewrite EOF_. repeat split; auto; lia.
+    - repeat split; auto; try lia; try discriminate. }
+  destruct D1 as (D1 & IO1 & IO1').
+  (* the taste *)
+  match type of E with context [match ?T with Some _ => _ | None => _ end] => destruct T as [[[c2 es2] rej]|] eqn:ET end; [|discriminate].
+  assert (T2 : wfc c2 /\ rootmode c2 = rootmode c /\ vocab c2 = vocab c /\ open_depth c2 = open_depth c1 /\
+               (rej = false -> c2 = c1) /\ (0 < discard c -> c2 = c1 /\ rej = true) /\
+               (rej = true -> discard c <= 0 -> inOpen c2 = false)).
+  { destruct M1 as (M1 & V1).
+    destruct ((0 <? discard c) || ((ty =? tok_PING) || (ty =? tok_PONG) || (ty =? tok_ABORT) || (ty =? tok_CLOSE))) eqn:EX.
+    - inversion ET; subst c2 es2 rej.
+      split; [exact W1|]. split; [exact M1|]. split; [exact V1|]. split; [reflexivity|]. split; [reflexivity|].
+      split.
+      + intros Hd. split; [reflexivity|]. apply Z.ltb_lt. exact Hd.
+      + intros Hr Hd. apply Z.ltb_lt in Hr. lia.
+    - apply orb_false_iff in EX as [EX1 EX2]. apply Z.ltb_ge in EX1.
+      match type of ET with context [match ?K with CkOk => _ | CkViol => _ | CkBanana => _ end] => destruct K end; try discriminate.
+      + inversion ET; subst c2 es2 rej.
+        split; [exact W1|]. split; [exact M1|]. split; [exact V1|]. split; [reflexivity|]. split; [reflexivity|].
+        split; [intros Hd; lia|intros Hr; discriminate].
+      + destruct (handle_violation c1 (inOpen c1) false) as [c3 es3|] eqn:EV; [|discriminate]. inversion ET; subst c2 es2 rej.
+        destruct (handle_violation_depth _ _ _ _ _ W1 EV) as (W3 & I3 & M3 & V3 & D3).
+        split; [exact W3|]. split; [unfold with_inOpen; cbn [rootmode]; congruence|]. split; [unfold with_inOpen; cbn [vocab]; congruence|].
+        split; [unfold open_depth, with_inOpen in *; cbn [discard stack inOpen]; rewrite I3 in D3; destruct (inOpen c1); lia|].
+        split; [discriminate|]. split; [intros Hd; lia|intros _ _; reflexivity]. }
+  destruct T2 as (W2 & M2 & V2 & D2 & Hacc & Hdis & Hrej).
+  unfold tok_delta.
+  destruct (ty =? tok_OPEN) eqn:EO.
+  { (* OPEN *)
+    assert (IOc : inOpen c = false) by (cbn [andb] in EOF_; exact EOF_).
+    assert (EC : ty =? tok_CLOSE = false) by (apply Z.eqb_eq in EO; subst; reflexivity). 
+    destruct rej.
+    - match type of E with context [if inOpen ?X then _ else _] => destruct (inOpen X) eqn:IO3 end; inversion E; subst.
+      + unfold wfc, open_depth, with_inOpen, with_stack in *. cbn [discard stack inOpen rootmode vocab] in *.
+        destruct W2 as (Hd2 & Hr2). split; [split; [lia|exact Hr2]|]. split; [exact M2|]. split; [exact V2|].
+        rewrite IO3 in D2. lia.
+      + cbn [inOpen] in IO3. destruct (Z.ltb_spec 0 (discard c)) as [Hp|Hn].
+        * destruct (Hdis Hp) as [-> _]. rewrite (IO1 eq_refl) in IO3. discriminate.
+        * unfold wfc, open_depth in *. cbn [discard stack inOpen rootmode vocab] in *.
+          split; [exact W2|]. split; [exact M2|]. split; [exact V2|].
+          (* rejected by the taster: the violation handler already counted this OPEN *)
+          assert (H1 : inOpen c1 = true) by (apply IO1; reflexivity).
+          rewrite D2. exact D1.
+    - rewrite (Hacc eq_refl) in *. inversion E; subst.
+      unfold wfc, open_depth, with_opentype, with_inOpen in *. cbn [discard stack inOpen rootmode vocab] in *.
+      split; [exact W1|]. split; [apply M1|]. split; [apply M1|]. rewrite (IO1 eq_refl) in D1. rewrite IOc in *. lia. }
+  rewrite (IO1' eq_refl) in *.
+  assert (cont_ok : forall r c3 es3, (match r with Ok' c'0 es' => Ok' c'0 (es2 ++ es') | Fatal' es' => Fatal' (es2 ++ es') end) = Ok' c3 es3 ->
+                    exists es4, r = Ok' c3 es4) by (intros r c3 es3 Hr; destruct r; inversion Hr; subst; eauto).
+  destruct (ty =? tok_CLOSE) eqn:EC.
+  { destruct (Z.ltb_spec 0 (discard c2)) as [Hp|Hn].
+    - inversion E; subst. unfold wfc, open_depth, with_stack in *. cbn [discard stack inOpen rootmode vocab] in *.
+      destruct W2 as (Hd2 & Hr2). split; [split; [lia|exact Hr2]|]. split; [exact M2|]. split; [exact V2|]. lia.
+    - apply cont_ok in E as (es4 & E). destruct (handle_close_depth _ _ _ _ W2 E) as (W3 & I3 & M3 & V3 & D3).
+      split; [exact W3|]. split; [congruence|]. split; [congruence|]. lia. }
+  assert (same : forall c3 es3, Ok' c2 es2 = Ok' c3 es3 -> wfc c3 /\ rootmode c3 = rootmode c /\ vocab c3 = vocab c /\ open_depth c3 = open_depth c + 0).
+  { intros c3 es3 H. inversion H; subst. split; [exact W2|]. split; [exact M2|]. split; [exact V2|]. lia. }
+  assert (deliv : forall v c3 es3, (match deliver c2 v with Ok' c'0 es' => Ok' c'0 (es2 ++ es') | Fatal' es' => Fatal' (es2 ++ es') end) = Ok' c3 es3 ->
+                   wfc c3 /\ rootmode c3 = rootmode c /\ vocab c3 = vocab c /\ open_depth c3 = open_depth c + 0).
+  { intros v c3 es3 H. apply cont_ok in H as (es4 & H). destruct (deliver_depth _ _ _ _ W2 H) as (W3 & M3 & V3 & D3).
+    split; [exact W3|]. split; [congruence|]. split; [congruence|]. lia. }
+  destruct (ty =? tok_ABORT).
+  { destruct rej; [apply (same _ _ E)|]. apply cont_ok in E as (es4 & E).
+    destruct (handle_violation_depth _ _ _ _ _ W2 E) as (W3 & I3 & M3 & V3 & D3).
+    split; [exact W3|]. split; [congruence|]. split; [congruence|]. lia. }
+  destruct (ty =? tok_INT). { destruct rej; [apply (same _ _ E)|apply (deliv _ _ _ E)]. }
+  destruct (ty =? tok_NEG). { destruct rej; [apply (same _ _ E)|apply (deliv _ _ _ E)]. }
+  destruct (ty =? tok_VOCAB).
+  { destruct (vocab_get (vocab c2) hdr); [|discriminate]. destruct rej; [apply (same _ _ E)|apply (deliv _ _ _ E)]. }
+  destruct (ty =? tok_PING). { inversion E; subst. split; [exact W2|]. split; [exact M2|]. split; [exact V2|]. lia. }
+  destruct (ty =? tok_PONG). { apply (same _ _ E). }
+  discriminate.
+Qed.
+
+Lemma has_body_delta ty : has_body ty = true -> tok_delta ty = 0.
+Proof.
+  unfold has_body, tok_delta. tyc. intros H.
+  destruct (Z.eqb_spec ty 136) as [->|_]; [cbn in H; discriminate|].
+  destruct (Z.eqb_spec ty 137) as [->|_]; [cbn in H; discriminate|]. reflexivity.
+Qed.
+
+(* every complete token moves the receiver's depth exactly as it moves the stream's nesting depth *)
+Theorem tok_apply_depth c ty hdr body c' es : wfc c -> tok_apply c ty hdr body = Ok' c' es ->
+  wfc c' /\ rootmode c' = rootmode c /\ vocab c' = vocab c /\ open_depth c' = open_depth c + tok_delta ty.
+Proof.
+  intros W E. unfold tok_apply in E. destruct (has_body ty) eqn:HB.
+  - rewrite (has_body_delta ty HB), Z.add_0_r.
+    destruct (begin_body c ty hdr) as [|c1 es1|es1] eqn:EB; [| |discriminate].
+    + apply (deliver_depth _ _ _ _ W E).
+    + inversion E; subst. apply (begin_body_reject_depth _ _ _ _ _ W EB).
+  - apply (step_nobody_depth _ _ _ _ _ W E).
+Qed.
+
+Fixpoint delta_sum (ts : list (Z * Z * list Z)) : Z :=
+  match ts with [] => 0 | (ty, _, _) :: r => tok_delta ty + delta_sum r end.
+
+Theorem apply_all_depth ts : forall c c' es, wfc c -> apply_all c ts = Ok' c' es ->
+  wfc c' /\ rootmode c' = rootmode c /\ vocab c' = vocab c /\ open_depth c' = open_depth c + delta_sum ts.
+Proof.
+  induction ts as [|[[ty hdr] body] ts IH]; intros c c' es W E; cbn [apply_all delta_sum] in *.
+  - inversion E; subst. repeat split; try apply W; lia.
+  - destruct (tok_apply c ty hdr body) as [c1 es1|] eqn:E1; [|discriminate].
+    destruct (apply_all c1 ts) as [c2 es2|] eqn:E2; [|discriminate]. inversion E; subst.
+    destruct (tok_apply_depth _ _ _ _ _ _ W E1) as (W1 & M1 & V1 & D1).
+    destruct (IH _ _ _ W1 E2) as (W2 & M2 & V2 & D2).
+    split; [exact W2|]. split; [congruence|]. split; [congruence|]. lia.
+Qed.
+
+Lemma ctx0_wf m v : wfc (ctx0 m v).
+Proof. split; [cbn; lia|]. exists []. split; [reflexivity|constructor]. Qed.
+
+Lemma at_top_depth c : at_top c -> open_depth c = 0.
+Proof. intros (D & I & S). unfold open_depth. rewrite D, I, S. reflexivity. Qed.
+
+Lemma depth_zero_top c : wfc c -> open_depth c = 0 -> at_top c.
+Proof.
+  intros (Hd & Hr) D. unfold open_depth in D. pose proof (root_nonempty _ Hr) as L.
+  destruct (inOpen c) eqn:I.
+  - lia.
+  - assert (discard c = 0) by lia. assert (HL : List.length (stack c) = 1%nat) by lia.
+    split; [assumption|]. split; [exact I|].
+    destruct Hr as (pre & E & _). rewrite E in HL |- *. rewrite app_length in HL. cbn in HL.
+    destruct pre; [reflexivity|cbn in HL; lia].
+Qed.
+
+(* RESYNCHRONISATION.  Whatever happens inside a top-level object -- violations at any depth,
+   absorbed or propagated, ABORTs, rejected or skipped tokens -- as long as the connection is not
+   abandoned, after a token sequence whose OPENs and CLOSEs balance the receiver is back at top
+   level: nothing is being discarded, no unslicer is left on the stack, no index phase is pending.
+   The following object is therefore decoded exactly as after a violation-free object. *)
+Theorem resync c ts c' es : at_top c -> wfc c -> delta_sum ts = 0 -> apply_all c ts = Ok' c' es -> at_top c'.
+Proof.
+  intros T W B E. destruct (apply_all_depth ts c c' es W E) as (W' & _ & _ & D).
+  apply depth_zero_top; [exact W'|]. rewrite D, (at_top_depth c T), B. reflexivity.
+Qed.
+
+(* ... and the depth never goes negative: a prefix of tokens cannot close more than was opened
+   without the connection being abandoned *)
+Theorem depth_nonneg c ts c' es : wfc c -> apply_all c ts = Ok' c' es -> 0 <= open_depth c + delta_sum ts.
+Proof.
+  intros W E. destruct (apply_all_depth ts c c' es W E) as ((Hd & Hr) & _ & _ & D).
+  rewrite <- D. unfold open_depth. pose proof (root_nonempty _ Hr). destruct (inOpen c'); lia.
+Qed.
+
+(* PING is transparent and answered by exactly one PONG with the same number, in every context *)
+Theorem ping_transparent c n : exists c', tok_apply c tok_PING n [] = Ok' c' [EPong n] \/
+                                           (exists es, tok_apply c tok_PING n [] = Fatal' es).
+Proof.
+  unfold tok_apply. change (has_body tok_PING) with false. cbv iota.
+  unfold step_nobody_hr. change (tok_PING =? tok_OPEN) with false. cbn [andb].
+  change (tok_PING =? tok_PING) with true. cbn [orb]. rewrite !orb_true_r. cbn [orb].
+  change (tok_PING =? tok_CLOSE) with false. change (tok_PING =? tok_ABORT) with false.
+  change (tok_PING =? tok_INT) with false. change (tok_PING =? tok_NEG) with false. change (tok_PING =? tok_VOCAB) with false.
+  cbv iota. eexists. left. reflexivity.
+Qed.
+
+(* ---- byte level and token level agree: once a token is complete in the buffer, the tokenizer
+   applies exactly tok_apply to it and continues with the remaining bytes ---- *)
+Notation btok_step := (tok_step bctx event begin_body finish_body step_nobody (fatal 0) (fatal 0) (fun _ => [ELose])).
+
+Theorem tok_step_complete c b ds ty rest :
+  scan_header 64 [] b = HOk ds ty rest -> ty <> tok_ERROR ->
+  (has_body ty = true -> blen ty (le128 ds) <= lenZ rest) ->
+  let n := if has_body ty then blen ty (le128 ds) else 0 in
+  btok_step c b =
+  match tok_apply c ty (le128 ds) (firstn (Z.to_nat n) rest) with
+  | Ok' c' es => TCont bctx event c' es (skipn (Z.to_nat n) rest)
+  | Fatal' es => TDead bctx event es
+  end.
+Proof.
+  intros S NE HB. unfold Recv.tok_step. rewrite S.
+  destruct (Z.eqb_spec ty tok_ERROR); [contradiction|].
+  unfold tok_apply. destruct (has_body ty) eqn:Hb.
+  - specialize (HB eq_refl). destruct (begin_body c ty (le128 ds)) as [|c1 es1|es1]; [| |reflexivity].
+    + destruct (Z.ltb_spec (lenZ rest) (blen ty (le128 ds))); [lia|].
+      unfold finish_body, to_generic. destruct (deliver c (body_val ty _)); reflexivity.
+    + destruct (Z.ltb_spec (lenZ rest) (blen ty (le128 ds))); [lia|]. reflexivity.
+  - cbn [Z.to_nat firstn skipn]. unfold step_nobody, to_generic. destruct (step_nobody_hr c ty (le128 ds)); reflexivity.
+Qed.
